@@ -37,3 +37,28 @@ def native_guard(pack, name, fn):
                                   'native_cmd': 'bounded native stand-in raised inside the repository code'})
             return None
         raise
+
+
+
+class Stub:
+    """stand-in receiver for native replays of methods called unbound (``Class.method(stub, ...)``): the attributes given are set;
+    any other attribute reads as None -- the value a new field that a change introduces typically has after ``__init__``"""
+    def __init__(self, _cls=None, **kw):
+        self.__dict__['_cls'] = _cls
+        self.__dict__.update(kw)
+
+    def __getattr__(self, name):
+        if name.startswith('__'):
+            raise AttributeError(name)
+        cls = self.__dict__.get('_cls')
+        if cls is not None:
+            import inspect
+            try:
+                raw = inspect.getattr_static(cls, name)
+            except AttributeError:
+                raw = None
+            if inspect.isfunction(raw):                 # a helper method of the real class (also one a change adds): bound to the stub
+                return lambda *a, **k: raw(self, *a, **k)
+            if isinstance(raw, staticmethod):
+                return raw.__func__
+        return None
